@@ -173,6 +173,22 @@ class _PyRaise(Exception):
         self.exc = exc
 
 
+def vrepr(v):
+    if isinstance(v, (Sig, RatV, BoolSym, PropSym, CountV, OptIdx)):
+        return f"{type(v).__name__}:{v.code}"
+    if isinstance(v, ListV):
+        return f"list:{v.prefix}:[{','.join(vrepr(x) for x in v.items)}]"
+    if isinstance(v, Rec):
+        return f"rec:{v.cls}:{{{','.join(k + '=' + vrepr(x) for k, x in sorted(v.fields.items()))}}}"
+    if isinstance(v, tuple):
+        return "(" + ",".join(vrepr(x) for x in v) + ")"
+    if isinstance(v, EnumV):
+        return f"enum:{v.member}"
+    if v is None or isinstance(v, (bool, int, float, str)):
+        return repr(v)
+    return type(v).__name__
+
+
 def rat_code(v, node=None):
     if isinstance(v, RatV):
         return v.code
@@ -834,6 +850,7 @@ class Translator:
             if isinstance(n, (ast.Global, ast.Nonlocal)):
                 self.rebound |= set(n.names)
         self.written = set()
+        self.pro_rest = None
         self.fn_of = {}
         for f in self.fns.values():
             for n in ast.walk(f):
@@ -928,7 +945,7 @@ class Translator:
             r = None
             if isinstance(v, Sig):
                 r = "cur"
-            elif isinstance(v, (int, float)) and not isinstance(v, bool):
+            elif isinstance(v, RatV) or (isinstance(v, (int, float)) and not isinstance(v, bool)):
                 r = "amp"
             elif v is None:
                 r = "blk"
@@ -951,6 +968,13 @@ class Translator:
         ex = Executor(self, script)
         env = self.prologue(ex)
         roles = self.roles(env)
+        # what the loop and the epilogue see of the prologue besides the loop-carried variables must not depend on the
+        # decisions taken in it (the other pieces are translated with the prologue's first path)
+        rest = sorted((k, vrepr(v)) for k, v in env.items() if k not in roles.values())
+        if self.pro_rest is None:
+            self.pro_rest = rest
+        elif rest != self.pro_rest:
+            bad(self.loop, "a variable set before the loop depends on the configuration")
         return ex, f"some ⟨{env[roles['cur']].code}, {rat_code(env[roles['amp']])}, none⟩"
 
     def stage_res(self, r):
@@ -975,11 +999,9 @@ class Translator:
         return f"⟨i, {names[st.member.name]}, {f['input_signal'].code}, {oc}, {rat_code(f['amplification_factor'])}⟩"
 
     def leaf_body(self, script):
-        ex = Executor(self, script)
-        env = self.prologue(ex)
+        env = self.prologue(Executor(self, []))      # decisions of the prologue only shape `init` (checked there)
         roles = self.roles(env)
-        if ex.trail:
-            bad(self.loop, "the prologue depends on the configuration")
+        ex = Executor(self, script)
         res = ListV("R", [])
         env[roles["cur"]] = Sig("a.cur")
         env[roles["amp"]] = RatV("a.amp")
@@ -1015,11 +1037,9 @@ class Translator:
                     f"{'true' if stop else 'false'}, [{', '.join(ex.seen)}]⟩")
 
     def leaf_finish(self, script):
-        ex = Executor(self, script)
-        env = self.prologue(ex)
+        env = self.prologue(Executor(self, []))      # decisions of the prologue only shape `init` (checked there)
         roles = self.roles(env)
-        if ex.trail:
-            bad(self.loop, "the prologue depends on the configuration")
+        ex = Executor(self, script)
         env[roles["cur"]] = Sig("r.acc.cur")
         env[roles["amp"]] = RatV("r.acc.amp")
         env[roles["blk"]] = OptIdx("r.acc.blockedAt")
@@ -1135,7 +1155,7 @@ HEAD = ("import Operon.Model.CascadeTr\n"
         "set_option linter.unusedVariables false\n\n")
 
 SIGS = {
-    "init": "def init {σ : Type} (x : σ) : Option (Acc σ) :=",
+    "init": "def init {σ : Type} (cfg : Cfg) (x : σ) : Option (Acc σ) :=",
     "body": "def body {σ : Type} (cfg : Cfg) (obs : Option StageObs) (i : Nat) (s : Stage σ) (a : Acc σ) : Option (TrStep σ) :=",
     "finish": "def finish {σ : Type} (cobs : Option CascObs) (n : Nat) (r : Run σ) : Option (Out (Result σ)) :=",
 }
